@@ -22,10 +22,11 @@ const (
 	hTryForOf                    // Try(func(){ ForOf(iterable) }) next() calls frame 1
 	hTryJSProxy                  // Try(func(){ proxy.Get("p") }) JS handler {get: frame 1}
 	hJob                         // Promise.resolve().then(frame 1): run from the job queue
+	hTryForOfStep                // Try(func(){ ForOf(iterable, step) }): the step callback calls frame 1 (Callable) and panics with the error
 	nHost
 )
 
-var hostNames = [...]string{"run", "callable", "construct", "exportfn", "exportfn_err", "try(get)", "try(forof)", "try(jsproxy)", "job"}
+var hostNames = [...]string{"run", "callable", "construct", "exportfn", "exportfn_err", "try(get)", "try(forof)", "try(jsproxy)", "job", "try(forof-step)"}
 
 type Entry uint8
 
@@ -56,10 +57,12 @@ const (
 	xForOf                   // Runtime.ForOf over an iterable whose next() calls next; panics pass through
 	xJSProxy                 // proxy.Get("p") with JS handler {get: next}; panics pass through
 	xTryGet                  // Runtime.Try(func(){ obj.Get("p") }) -> *Exception
+	xForOfStep               // Runtime.ForOf: the step callback calls next (Callable) and panics with the error; the iterator has a return() method
+	xForOfStepRT             // same, the iterator's return() method throws
 	nExit
 )
 
-var exitNames = [...]string{"callable", "new", "exportfn", "exportfn_err", "get", "forof", "jsproxy", "try(get)"}
+var exitNames = [...]string{"callable", "new", "exportfn", "exportfn_err", "get", "forof", "jsproxy", "try(get)", "forof-step", "forof-step/return-throws"}
 
 type TryKind uint8
 
